@@ -195,6 +195,14 @@ theorem TreeOk.popForeign' {P : NP} {t : Tree} (c : Cfg) (ht : TreeOk P t) : Tre
 
 /-! ### growing operations -/
 
+theorem TreeOk.pushEl' {P : NP} {t : Tree} (e : El) (ht : TreeOk P t) (h : P e.name e.ns) : TreeOk P (t.pushEl e) := by
+  refine ⟨fun x hx => ?_, ht.afe⟩
+  simp only [Tree.pushEl, List.mem_cons] at hx
+  rcases hx with rfl | hx
+  · exact h
+  · exact ht.stack x hx
+
+
 theorem TreeOk.pushNew {P : NP} {t : Tree} (ht : TreeOk P t) (ns : Ns) (n : Name) (a : Attrs) (h : P n ns) :
     TreeOk P (t.pushNew ns n a) := by
   refine ⟨fun e he => ?_, ht.afe⟩
